@@ -21,6 +21,8 @@ use ironplc_plc2plc::write_to_string;
 use ironplcc::project::{FileBackedProject, Project};
 use serde_json::{json, Value};
 
+mod dbg;
+
 static LAST_PANIC: Mutex<Option<Value>> = Mutex::new(None);
 thread_local! {
     static STAGE: std::cell::RefCell<String> = const { std::cell::RefCell::new(String::new()) };
@@ -142,7 +144,7 @@ fn library_json(lib: &Library, want_dump: bool) -> Value {
         "n_elements": lib.elements.len(),
     });
     if want_dump {
-        v["dump"] = json!(format!("{:?}", lib));
+        v["dump"] = dbg::parse(&format!("{:?}", lib));
     }
     v
 }
